@@ -1,10 +1,21 @@
 #!/bin/sh
-# Builds the framework from files on disk only (offline).
-set -e
+# Builds the framework from files on disk only (offline).  Every ./check rebuilds what it needs
+# incrementally, so this script only warms the caches; a failure of one optional part must not
+# prevent the others from being built.
 cd "$(dirname "$0")"
 export CARGO_NET_OFFLINE=true
-python3 tools/extract.py /repo lean
-(cd lean && lake build ClvmModel ClvmProofs clvm_model)
+python3 tools/extract.py /repo lean || exit 1
+# the model driver is required by every check
+(cd lean && lake build clvm_model) || exit 1
+# property modules: build each on its own so that one broken module does not hide the others
+for f in lean/ClvmProofs/Props/C*.lean; do
+  m=$(basename "$f" .lean)
+  (cd lean && lake build "ClvmProofs.Props.$m" >/dev/null 2>&1) || echo "setup: ClvmProofs.Props.$m does not build (its check will report it)"
+done
 cp /repo/Cargo.lock harness/Cargo.lock
-(cd harness && CARGO_TARGET_DIR=/verif/.build/h-default cargo build --offline --bin h)
+(cd harness && CARGO_TARGET_DIR=/verif/.build/h-default cargo build --offline --bin h) || exit 1
+# Python wheel (C26-C28): optional warm-up
+if [ -x pyharness/build.sh ]; then
+  sh pyharness/build.sh >/dev/null 2>&1 || echo "setup: wheel build failed (C26-C28 checks will rebuild and report)"
+fi
 echo setup ok
